@@ -17,6 +17,8 @@ any_is_none = z3.Function("any_is_none", ANY, z3.BoolSort())
 def storage_truth(st, ref):
     s = st.get(ref)
     k = s.get("__kind__")
+    if callable(s.get("__truth__")):
+        return s["__truth__"](st)
     if k == "dict":
         if s["open"]:
             return z3.Bool(f"dict_nonempty#{ref.oid}")
